@@ -17,6 +17,8 @@ def main():
     obs = None
     for k in job.get("gens", []):
         obs = c20.gen_call(k)[0]
+    for k in job.get("builders", []):
+        obs = c20.builder_call(k)
     for cfg in job.get("cfgs", []):
         sc = c20.Script(cfg, job["fam"])
         sc.OPS = ["setup", "run", "totals"]
